@@ -120,6 +120,15 @@ def check(prop, tier, seed, a):
         json.dump(rep, open(os.path.join(ROOT, path), "w"), indent=1, default=str)
         violations.append((name, path, rep))
     missing = [n for n in baseline if n not in obs]
+    # CPython cross-check of the proofs (sampled inputs through the real function, same clause text)
+    cross_n, disagree = 0, []
+    for cname, m in meta.items():
+        cc = m.get("crosscheck") or {}
+        cross_n += cc.get("evaluations", 0)
+        for d in cc.get("disagreements", []):
+            name = f"{prop}/{cname}/{d['obligation']}"
+            if obs.get(name, {}).get("status") == "proved":
+                disagree.append(dict(d, obligation=name))
     # bounded stand-in
     bounded = None
     if cfg.get("bounded"):
@@ -136,7 +145,10 @@ def check(prop, tier, seed, a):
     wall = time.time() - t0
     n_ob = len(obs)
     n_dis = sum(1 for o in obs.values() if o["status"] == "proved")
-    write_evidence(prop, tier, seed, cfg, contracts, obs, meta, bounded, violations, undecided, known_hits, wall, missing)
+    write_evidence(prop, tier, seed, cfg, contracts, obs, meta, bounded, violations, undecided, known_hits, wall, missing,
+                   crosscheck=dict(evaluations=cross_n, disagreements=disagree,
+                                   what="each scenario's real function run natively on sampled inputs satisfying the precondition; the clauses proved "
+                                        "symbolically were evaluated by CPython on the outcome; a disagreement means an engine defect or float rounding and leaves the check UNDECIDED"))
     if a.update_baseline:
         os.makedirs(os.path.dirname(baseline_path(tier)), exist_ok=True)
         full = load_baseline(tier)
@@ -149,14 +161,16 @@ def check(prop, tier, seed, a):
             print(f"KNOWN-FINDING: property={prop} {kf['id']}: {kf['what']}")
     n_b = sum(1 for o in obs.values() if o.get("bound"))
     print(f"{prop}: obligations={n_ob - n_b}+{n_b} bounded-structure discharged={n_dis} undecided={len(undecided)} violations={len(violations)} "
-          f"known={len(seen)} bounded={'%d evaluations' % bounded['evaluations'] if bounded else 'none'} wall={wall:.1f}s")
+          f"known={len(seen)} bounded={'%d evaluations' % bounded['evaluations'] if bounded else 'none'} crosscheck={cross_n} wall={wall:.1f}s")
     if violations:
         for name, path, rep in violations:
             tail = "" if rep.get("reproduced") else " no-failing-input-found"
             print(f"  failed obligation: {name}")
             print(f"VIOLATION property={prop} replay={path}{tail}")
         return 1
-    if undecided or missing or timeouts:
+    if undecided or missing or timeouts or disagree:
+        for d in disagree:
+            print(f"UNDECIDED crosscheck obligation={d['obligation']}: proved symbolically but fails natively on {d['inputs']}: {d['label']} {d['detail']}")
         for c in timeouts:
             print("UNDECIDED", c.strip())
         for name, o in undecided:
@@ -175,7 +189,7 @@ def match_finding(findings, name, rep):
     return None
 
 
-def write_evidence(prop, tier, seed, cfg, contracts, obs, meta, bounded, violations, undecided, known_hits, wall, missing):
+def write_evidence(prop, tier, seed, cfg, contracts, obs, meta, bounded, violations, undecided, known_hits, wall, missing, crosscheck=None):
     unb = {n: o for n, o in obs.items() if not o.get("bound")}
     bnd = {n: o for n, o in obs.items() if o.get("bound")}
     n_ob = len(unb)
@@ -219,6 +233,8 @@ def write_evidence(prop, tier, seed, cfg, contracts, obs, meta, bounded, violati
             bounds=sorted({o["bound"] for o in bnd.values()}))
     if bounded:
         cov["bounded"] = dict(labelled="bounded", **{k: v for k, v in bounded.items() if k != "violations"})
+    if crosscheck is not None:
+        cov["cpython_crosscheck"] = crosscheck
     ev = dict(property_id=prop, tier=tier if tier in ("quick", "thorough") else "quick", seed=seed, level=level,
               coverage=cov, assumptions=GLOBAL_ASSUMPTIONS + sorted(assumed) + list(cfg.get("assumptions", [])),
               wall_s=round(wall, 2), violations=len(violations))
